@@ -34,7 +34,7 @@ CLAIMED = {
     technique=KANI + "; round trip + differential against an independent wire layout written in the harness",
     ref="DESIGN.md §4 C05"),
  "C02": dict(
-    text="Pointer fidelity of name compression is decided in two lemmas: (A) for every usize position, the static compressor and the hash compressor's entry constructor remember a position only if it fits a 14-bit pointer, and truncation forgets exactly the positions at or beyond the new length; (B) for two names with symbolic label content appended through StaticCompressor, an independent RFC 1035 reader reconstructs exactly the appended names and pointers are only emitted for equal suffixes. Builder bookkeeping in one-push scripts: a push under any push limit succeeds exactly when it fits and a failed push leaves octets and counts untouched; going back from the additional section to any earlier section resets the counts and the octets; each header count increment adds exactly one and refuses to overflow; header setters touch only their own bits. The multi-push script and the stream length prefix are thorough-tier harnesses.",
+    text="Pointer fidelity of name compression is decided in two lemmas: (A) for every usize position, the static compressor and the hash compressor's entry constructor remember a position only if it fits a 14-bit pointer, and truncation forgets exactly the positions at or beyond the new length; (B) for two names with symbolic label content appended through StaticCompressor, an independent RFC 1035 reader reconstructs exactly the appended names and pointers are only emitted for equal suffixes. Builder bookkeeping in one-push scripts: a push under any push limit succeeds exactly when it fits and a failed push leaves octets and counts untouched; going back from the additional section to any earlier section resets the counts and the octets; each header count increment adds exactly one and refuses to overflow; header setters touch only their own bits; a single MX record pushed into the answer or authority section and a single OPT record (symbolic payload size, version, DO, extended rcode, one raw option) produce exactly the RFC 1035 / RFC 6891 octets with back-patched RDLENGTH and the right section count. The multi-push script and the stream length prefix are thorough-tier harnesses.",
     note="A+B give fidelity at all offsets for the static compressor because its lookup does not depend on the absolute offset other than through the pointer encoding (argument, not solver result). TreeCompressor/HashCompressor beyond their position guards (hashbrown), BytesMut/Vec targets, op sequences longer than the scripted one, and messages beyond 72 octets are outside the claim. The multi-push builder script (plain and stream target, > 10 M SAT variables, ~10 min each with 14 GB) is in the thorough tier; the message-level round trips through the compressor do not finish and are in the unregistered experimental tier.",
     technique=KANI + "; guard lemmas via cfg-guarded hooks + differential against an independent RFC 1035 name reader",
     ref="DESIGN.md §4 C02"),
